@@ -17,3 +17,5 @@ try:
     print("exit", r.returncode, "|", " || ".join(lines) if lines else r.stdout[-300:])
 finally:
     subprocess.run(["git", "-C", "/repo", "checkout", "--", "."])
+    # the seeded run rewrote the evidence file: restore the committed one
+    subprocess.run(["git", "-C", "/verif", "checkout", "--", "evidence/%s.json" % prop])
